@@ -65,6 +65,7 @@ def run_history(case, stats=None):
     with seams.sandbox(f'{PROP}') as root, seams.record_writes() as opens:
         initial_rc = rc_snapshot()
         user_rc = {}
+        tex_style = False
         try:
             for pos, op in enumerate(case['ops']):
                 kind = op[0]
@@ -85,6 +86,8 @@ def run_history(case, stats=None):
                 if kind == 'set_style':
                     from ampycloud import dynamic
                     dynamic.AMPYCLOUD_PRMS['MPL_STYLE'] = op[1]
+                    tex_style = op[1] in ('latex', 'metsymb')
+                    bump(f'probe.style_{op[1]}')
                     continue
                 if kind == 'user_close':
                     if user_figs:
@@ -106,6 +109,11 @@ def run_history(case, stats=None):
                 n_opens = len(opens)
                 if stem and os.path.dirname(stem):
                     os.makedirs(os.path.join(root, os.path.dirname(stem)), exist_ok=True)
+                if tex_style:
+                    # no LaTeX in the sandbox: under the LaTeX styles the figure is built and
+                    # closed but never rendered (no file, no show), which needs no LaTeX
+                    stem, abs_stem, show = None, None, 0
+                    bump('probe.plot_under_latex_style_without_rendering')
                 kwargs = {'upto': UPTO[upto], 'show_ceilos': bool(show_ceilos),
                           'ref_metar': REF_METARS[ref_metar],
                           'ref_metar_origin': ORIGINS[origin], 'show': bool(show)}
@@ -245,6 +253,10 @@ def replay(case):
 def gen_ops(rng, n_chunks):
     ops = []
     n_stems = 0
+    if rng.random() < 0.3:      # a plot under a LaTeX style earlier in the same process
+        ops += [['set_style', rng.choice(['latex', 'metsymb'])],
+                ['plot', rng.randrange(n_chunks), rng.randrange(4), 0, 0, 0, 0, None, 'default'],
+                ['set_style', rng.choice(['base', None])]]
     for _ in range(rng.randint(6, 14)):
         x = rng.random()
         if x < 0.14:
@@ -253,8 +265,8 @@ def gen_ops(rng, n_chunks):
             ops.append(['user_figure', rng.randint(1, 5)])
         elif x < 0.25:
             ops.append(['user_close'])
-        elif x < 0.29:
-            ops.append(['set_style', rng.choice([None, 'base'])])
+        elif x < 0.33:
+            ops.append(['set_style', rng.choice([None, 'base', 'base', 'latex', 'metsymb'])])
         else:
             save = rng.random() < 0.8
             stem = None
@@ -334,7 +346,8 @@ def describe(tier, agg):
                 'plot call is checked, so non-trivial = every plot call; distinct = distinct '
                 '(chunk rows, plot arguments)',
         'assumptions': [
-            'Agg backend; LaTeX styles excluded (no LaTeX in the sandbox); MPL_STYLE stays base',
+            'Agg backend; no LaTeX in the sandbox: under MPL_STYLE latex / metsymb figures are '
+            'built and closed but never rendered (no file, no show); base / None otherwise',
             'text arguments are METAR-like tokens, ISO dates and plain names (no mathtext '
             'metacharacters): that is an input-domain question, not a history question',
             'no fault is injected into savefig: the statement says nothing about failing writes',
